@@ -5,6 +5,7 @@ use vsim::{
     chan_inline::{threads::ChanThreads, ChanInline},
     ctx_frames::CtxFrames,
     ctx_probes::CallingContexts,
+    fs_diff::FsDiff,
     ctx_spans::CtxSpans,
     file_e2e::FileE2e,
     fsim::Fsim,
@@ -64,7 +65,10 @@ fn engines_for(property: &str) -> Vec<(Box<dyn Engine>, u64, u64)> {
             (Box::new(Fsim { mode: "C10" }), 5_000, 200_000),
             (Box::new(FileE2e), 20_000, 600_000),
         ],
-        "C11" => vec![(Box::new(Fsim { mode: "C11" }), 1_000_000, 30_000_000)],
+        "C11" => vec![
+            (Box::new(Fsim { mode: "C11" }), 1_000_000, 30_000_000),
+            (Box::new(FsDiff), 4_000, 150_000),
+        ],
         _ => vec![],
     }
 }
@@ -76,6 +80,7 @@ fn engine_by_name(name: &str) -> Option<Box<dyn Engine>> {
         "calling-contexts" => Some(Box::new(CallingContexts)),
         "ctx-frames" => Some(Box::new(CtxFrames)),
         "file-e2e" => Some(Box::new(FileE2e)),
+        "fsim-realfs" => Some(Box::new(FsDiff)),
         "otlp-delivery" => Some(Box::new(OtlpSim { focus: "C12" })),
         "otlp-routing" => Some(Box::new(OtlpSim { focus: "C14" })),
         "ctx-spans-tree" => Some(Box::new(CtxSpans { focus: "C04" })),
